@@ -222,6 +222,44 @@ def value_clauses(I, o, f, L, kind, info, scen, problems, undecided):
                 problems.append(('movedfrom', 'moved-from stream reports size %r, not empty' % I.as_u(st, bsize)))
 
 
+def truncated_rendering(I, o, info, L, problems, undecided):
+    """A text rendered by snprintf straight into the stream's storage counts as stream content only if it fitted: snprintf(d, n, ...)
+    returning r has stored r characters and the NUL only when r < n; with r == n the last character was replaced by the NUL."""
+    from ..terms import base_atoms
+    st = o.st
+    A = info.get('A')
+    if A is None or A not in st.objs:
+        return
+    size_now = st.objs[A].cells.get(L.size_off)
+    e = (info.get('entry') or {}).get('this')
+    if size_now is None or e is None or not isinstance(size_now[1], IntV):
+        return
+    grown = I.as_u(st, size_now[1]) - e['size'] if I.as_u(st, size_now[1]) is not None else None
+    if grown is None:
+        return
+    for ev in st.events:
+        if ev[0] != 'snprintf' or len(ev) < 7:
+            continue
+        d, nl, res = ev[2], ev[3], ev[6]
+        if not (isinstance(d, PtrV) and nl is not None and isinstance(res, IntV)):
+            continue
+        sto_objs = set(x for x in (e['storage'].obj, A))
+        if d.obj not in sto_objs:
+            continue                    # rendered into a scratch buffer, copied later through append (its own clauses)
+        ra = list(base_atoms(res.lin))
+        if not ra or not (set(ra) & set(base_atoms(grown))):
+            continue                    # the reported length does not become part of the stream's size on this path
+        rl = I.as_s(st, res)
+        if st.is_ge0(nl - rl - 1) is True:
+            continue
+        env = st.find_model([nl - rl], lambda v: v[0] <= 0)
+        if env is not None:
+            problems.append(('truncated', 'a rendering that snprintf reports as %r characters is accepted into a space of %r bytes: when they are equal its last '
+                             'character was replaced by the terminator and a NUL becomes stream content; witness %s' % (rl, nl, own.fmt_env(env))))
+        else:
+            undecided.append('a rendering made directly into the stream is accepted without snprintf\'s result being known to be below the space given')
+
+
 def analyse(run, m, F, E, L, f):
     kind = method_kind(f)
     roles = own.owner_param_roles(f, L)
@@ -249,6 +287,8 @@ def analyse(run, m, F, E, L, f):
                     e = info['entry'].get('this')
                     if e and e['cls'] == 'heap' and not o.st.objs[e['storage'].obj].freed:
                         problems.append(('leak', 'destructor does not release the heap block it owns'))
+                if o.kind == 'ret':
+                    truncated_rendering(I, o, info, L, problems, undecided)
                 vp, vu = [], []
                 if o.kind == 'ret' and kind not in ('dtor', 'other', 'insert'):
                     value_clauses(I, o, f, L, kind, info, scen, vp, vu)
